@@ -485,6 +485,376 @@ def lit_tree(pairs):
 
 
 # --------------------------------------------------------------------------------------------
+# round 3 — the extended universe (Grass.Value.XV / xeq): numbers with compound units, calculations,
+# function references, and the remaining look-alikes.  Extra tree forms:
+#   ('cnum', q, [numerator units], [denominator units])
+#   ('calc', name, [carg])   carg = ('cn', q, unit | (numer, denom)) | ('cc', name, [carg]) | ('cs', text)
+#                                   | ('co', op, carg, carg) | ('ci', text)
+#   ('fn', 'builtin', id, name) | ('fn', 'user', name, lo, hi) | ('fn', 'plain', name)
+# --------------------------------------------------------------------------------------------
+
+XPRELUDE = ('@use "sass:meta";\n' + PRELUDE +
+            "@function f1() { @return 1; }\n@function f2() { @return 1; }\n"
+            "@function g() { @return 1; }\n$g1: meta.get-function(\"g\");\n"
+            "@function g() { @return 2; }\n$g2: meta.get-function(\"g\");\n")
+
+
+def xunit_tok(u):
+    if isinstance(u, tuple):
+        nu, de = u
+        return f"X {len(nu)}" + "".join(" " + unit_tok(x) for x in nu) + f" {len(de)}" + "".join(" " + unit_tok(x) for x in de)
+    return unit_tok(u)
+
+
+def cenc(c):
+    t = c[0]
+    if t == "cn":
+        return f"Cn {rat(c[1])} {xunit_tok(c[2])}"
+    if t == "cc":
+        return f"Cc {c[1]} {len(c[2])}" + "".join(" " + cenc(a) for a in c[2])
+    if t == "cs":
+        return "Cs " + hexs(c[1])
+    if t == "ci":
+        return "Ci " + hexs(c[1])
+    if t == "co":
+        return f"Co {c[1]} {cenc(c[2])} {cenc(c[3])}"
+    raise ValueError(c)
+
+
+def xenc(v):
+    t = v[0]
+    if t == "cnum":
+        return f"n {rat(v[1])} {xunit_tok((v[2], v[3]))}"
+    if t == "calc":
+        return f"k {v[1]} {len(v[2])}" + "".join(" " + cenc(a) for a in v[2])
+    if t == "fn":
+        if v[1] == "builtin":
+            return f"fb {v[2]} {hexs(v[3])}"
+        if v[1] == "user":
+            return f"fu {hexs(v[2])} {v[3]} {v[4]}"
+        return f"fp {hexs(v[2])}"
+    if t == "list":
+        return f"l {v[2]} {1 if v[3] else 0} {len(v[1])}" + "".join(" " + xenc(e) for e in v[1])
+    if t == "map":
+        return f"m {len(v[1])}" + "".join(" " + xenc(k) + " " + xenc(x) for k, x in v[1])
+    if t == "arglist":
+        return (f"a {v[3]} {len(v[1])}" + "".join(" " + xenc(e) for e in v[1]) + f" {len(v[2])}"
+                + "".join(" " + xenc(("str", k, False)) + " " + xenc(x) for k, x in v[2]))
+    return enc(v)
+
+
+def xkind(v):
+    t = v[0]
+    if t in ("list", "arglist"):
+        return "listlike"
+    return t
+
+
+def xhas_nan(v):
+    t = v[0]
+    if t in ("num", "cnum"):
+        return v[1] == "nan"
+    if t == "calc":
+        def cn(c):
+            if c[0] == "cn":
+                return c[1] == "nan"
+            if c[0] == "cc":
+                return any(cn(a) for a in c[2])
+            if c[0] == "co":
+                return cn(c[2]) or cn(c[3])
+            return False
+        return any(cn(a) for a in v[2])
+    if t == "list":
+        return any(xhas_nan(e) for e in v[1])
+    if t == "map":
+        return any(xhas_nan(k) or xhas_nan(x) for k, x in v[1])
+    if t == "arglist":
+        return any(xhas_nan(e) for e in v[1]) or any(xhas_nan(x) for _, x in v[2])
+    return False
+
+
+def xuniverse():
+    """(sass expression, tree) for the extended universe; expressions are self-contained given XPRELUDE."""
+    one, two = num("1"), num("2")
+    X = []
+
+    def add(sass, tree):
+        X.append((sass, tree))
+
+    def cn(text, unit):
+        return ("cn", Fraction(text) if text != "nan" else "nan", unit)
+
+    def plus(a, b, op="plus"):
+        return ("co", op, a, b)
+
+    def calc(*args, name="calc"):
+        return ("calc", name, list(args))
+
+    # numbers with compound units: ordered numerator / denominator vectors, no conversion
+    add("1px*1px", ("cnum", Fraction(1), ["px", "px"], []))
+    add("2px*1px", ("cnum", Fraction(2), ["px", "px"], []))
+    add("96px*1px", ("cnum", Fraction(96), ["px", "px"], []))
+    add("1px*1in", ("cnum", Fraction(1), ["px", "in"], []))
+    add("1in*1px", ("cnum", Fraction(1), ["in", "px"], []))
+    add("1px*1em", ("cnum", Fraction(1), ["px", "em"], []))
+    add("1em*1px", ("cnum", Fraction(1), ["em", "px"], []))
+    add("1.000000000001px*1em", ("cnum", Fraction("1.000000000001"), ["px", "em"], []))
+    add("1.00000000001px*1em", ("cnum", Fraction("1.00000000001"), ["px", "em"], []))
+    add("1px*1px*1px", ("cnum", Fraction(1), ["px", "px", "px"], []))
+    add("math.div(1px, 1s)", ("cnum", Fraction(1), ["px"], ["s"]))
+    add("math.div(1000px, 1000s)", ("cnum", Fraction(1), ["px"], ["s"]))
+    add("math.div(1px, 1000ms)", ("cnum", Fraction("0.001"), ["px"], ["ms"]))
+    add("math.div(1in, 1s)", ("cnum", Fraction(1), ["in"], ["s"]))
+    add("math.div(96px, 1s)", ("cnum", Fraction(96), ["px"], ["s"]))
+    add("math.div(1, 1s)", ("cnum", Fraction(1), [], ["s"]))
+    add("math.div(1, 1px)", ("cnum", Fraction(1), [], ["px"]))
+    add("math.div(1px*1em, 1s)", ("cnum", Fraction(1), ["px", "em"], ["s"]))
+    add("math.div(1px, 1s*1s)", ("cnum", Fraction(1), ["px"], ["s", "s"]))
+    add("math.div(0, 0)*1px*1em", ("cnum", "nan", ["px", "em"], []))
+    # calculations: structural equality of the simplified tree, numbers by SassNumber::eq
+    px1, pc1 = cn("1", "px"), cn("1", "%")
+    add("calc(1px + 1%)", calc(plus(px1, pc1)))
+    add("calc(1in + 1%)", calc(plus(cn("1", "in"), pc1)))
+    add("calc(96px + 1%)", calc(plus(cn("96", "px"), pc1)))
+    add("calc(2.54cm + 1%)", calc(plus(cn("2.54", "cm"), pc1)))
+    add("calc(1.000000000004in + 1%)", calc(plus(cn("1.000000000004", "in"), pc1)))
+    add("calc(1% + 1px)", calc(plus(pc1, px1)))
+    add("calc(1px - 1%)", calc(plus(px1, pc1, "minus")))
+    add("calc(1px + 2%)", calc(plus(px1, cn("2", "%"))))
+    add("calc(1.000000000001px + 1%)", calc(plus(cn("1.000000000001", "px"), pc1)))
+    add("calc(1px + 1% + 2px)", calc(plus(plus(px1, pc1), cn("2", "px"))))
+    add("calc((1px + 1%) * 2)", calc(plus(plus(px1, pc1), cn("2", None), "times")))
+    add("calc(2 * (1px + 1%))", calc(plus(cn("2", None), plus(px1, pc1), "times")))
+    add("min(1px, 1%)", calc(px1, pc1, name="min"))
+    add("min(1in, 1%)", calc(cn("1", "in"), pc1, name="min"))
+    add("min(96px, 1%)", calc(cn("96", "px"), pc1, name="min"))
+    add("max(1px, 1%)", calc(px1, pc1, name="max"))
+    add("clamp(1px, 1%, 2px)", calc(px1, pc1, cn("2", "px"), name="clamp"))
+    add("calc(var(--x))", calc(("cs", "var(--x)")))
+    add("calc(var(--y))", calc(("cs", "var(--y)")))
+    add("calc(1px * var(--x))", calc(plus(px1, ("cs", "var(--x)"), "times")))
+    add("calc(1px + min(1%, 1vw))", calc(plus(px1, ("cc", "min", [pc1, cn("1", "vw")]))))
+    add("calc(1px + math.div(0, 0) * 1%)", calc(plus(px1, cn("nan", "%"))))
+    # function references
+    add('meta.get-function("f1")', ("fn", "user", "f1", 1, 1))
+    add('meta.get-function("f2")', ("fn", "user", "f2", 2, 2))
+    add("$g1", ("fn", "user", "g", 3, 3))
+    add("$g2", ("fn", "user", "g", 4, 4))
+    add('meta.get-function("rgb")', ("fn", "builtin", 1, "rgb"))
+    add('meta.get-function("rgba")', ("fn", "builtin", 2, "rgba"))
+    add('meta.get-function("map-get")', ("fn", "builtin", 3, "map-get"))
+    add('meta.get-function("map_get")', ("fn", "builtin", 3, "map-get"))
+    add('meta.get-function("get", $module: "map")', ("fn", "builtin", 4, "get"))
+    add('meta.get-function("f1", $css: true)', ("fn", "plain", "f1"))
+    add('meta.get-function("rgb", $css: true)', ("fn", "plain", "rgb"))
+    # look-alikes among the old kinds
+    add('"calc(1px + 1%)"', ("str", "calc(1px + 1%)", True))
+    add('unquote("calc(1px + 1%)")', ("str", "calc(1px + 1%)", False))
+    add('"get-function(\\"f1\\")"', ("str", 'get-function("f1")', True))
+    add('unquote("f1")', ("str", "f1", False))
+    add('unquote("1px*em")', ("str", "1px*em", False))
+    add("red", ("color", Fraction(255), Fraction(0), Fraction(0), Fraction(1)))
+    add('"red"', ("str", "red", True))
+    add('unquote("red")', ("str", "red", False))
+    add("true", ("bool", True))
+    add('unquote("true")', ("str", "true", False))
+    add("null", ("null",))
+    add('unquote("null")', ("str", "null", False))
+    add("1", one)
+    add("1px", num("1", "px"))
+    add("1s", num("1", "s"))
+    add("()", ("list", [], "undecided", False))
+    add("[]", ("list", [], "undecided", True))
+    add("map-remove((a: 1), a)", ("map", []))
+    add("list.join((), (), $separator: comma)", ("list", [], "comma", False))
+    add("list.join((), (), $separator: space)", ("list", [], "space", False))
+    add("list.append((), 1)", ("list", [one], "space", False))
+    add("list.append((), 1, $separator: comma)", ("list", [one], "comma", False))
+    add("(1,)", ("list", [one], "comma", False))
+    add("[1]", ("list", [one], "undecided", True))
+    add("list.append([], 1)", ("list", [one], "space", True))
+    add("a()", ("arglist", [], [], "comma"))
+    # bucket boundaries, unitless and in the canonical unit (no conversion product): the scaled value
+    # a * 1e11 is 1e-3 away from the rounding boundary .5, i.e. 1e-14 relative — still > 100 times the
+    # f64 noise of literal parsing and of the one product (about 2.2e-5 in a * 1e11)
+    for t in ("1.000000000004", "1.00000000000499", "1.00000000000501", "1.000000000006"):
+        add(t, num(t))
+        add(t + "px", num(t, "px"))
+    add("1.00000000000499px*1em", ("cnum", Fraction("1.00000000000499"), ["px", "em"], []))
+    add("1.00000000000501px*1em", ("cnum", Fraction("1.00000000000501"), ["px", "em"], []))
+    # the new kinds inside containers
+    pxem, empx = ("cnum", Fraction(1), ["px", "em"], []), ("cnum", Fraction(1), ["em", "px"], [])
+    cin, cpx = calc(plus(cn("1", "in"), pc1)), calc(plus(cn("96", "px"), pc1))
+    f1, f2 = ("fn", "user", "f1", 1, 1), ("fn", "user", "f2", 2, 2)
+    add("(1px*1em 2)", ("list", [pxem, two], "space", False))
+    add("(1em*1px 2)", ("list", [empx, two], "space", False))
+    add("(calc(1in + 1%), 2)", ("list", [cin, two], "comma", False))
+    add("(calc(96px + 1%), 2)", ("list", [cpx, two], "comma", False))
+    add("a(calc(96px + 1%), 2)", ("arglist", [cpx, two], [], "comma"))
+    add("[calc(96px + 1%), 2]", ("list", [cpx, two], "comma", True))
+    add("(calc(1in + 1%): 1)", ("map", [(cin, one)]))
+    add("(calc(96px + 1%): 1)", ("map", [(cpx, one)]))
+    add('(meta.get-function("f1"): 1, meta.get-function("f2"): 2)', ("map", [(f1, one), (f2, two)]))
+    add('(meta.get-function("f2"): 2, meta.get-function("f1"): 1)', ("map", [(f2, two), (f1, one)]))
+    add('(meta.get-function("f1"): 1, meta.get-function("f2"): 1)', ("map", [(f1, one), (f2, one)]))
+    add("(1px*1em: calc(1in + 1%))", ("map", [(pxem, cin)]))
+    add("(1px*1em: calc(96px + 1%))", ("map", [(pxem, cpx)]))
+    add("(1em*1px: calc(96px + 1%))", ("map", [(empx, cpx)]))
+    return X
+
+
+def ext_section(ck, pool, failing, disagree):
+    """All ordered pairs of the extended universe: model (`xpairobs`) against grass, the Lean
+    predicate `pairAgrees` and the equivalence-law checkers on grass's own answers, `index` over the
+    whole universe."""
+    X = xuniverse()
+    n = len(X)
+    head = XPRELUDE + "".join(f"$v{i}: {s};\n" for i, (s, _) in enumerate(X))
+    pairs = [(i, j) for i in range(n) for j in range(n)]
+    bodies = [(f"e: $v{i} == $v{j}; n: $v{i} != $v{j}; g: inspect(map-get(($v{i}: 1), $v{j})); "
+               f"h: map-has-key(($v{i}: 1), $v{j}); r: length(map-remove(($v{i}: 1), $v{j})); "
+               f"m: length(map-merge(($v{i}: 1), ($v{j}: 2))); x: inspect(index(($v{i},), $v{j}))")
+              for i, j in pairs]
+    pres = run_batched(pool, head, bodies)
+    mouts = driver([f"value xpairobs now {xenc(X[i][1])} {xenc(X[j][1])}" for i, j in pairs])
+    impl_eq = [[False] * n for _ in range(n)]
+    obs = {}
+    for idx, ((i, j), mo) in enumerate(zip(pairs, mouts)):
+        case = f"{X[i][0]}  vs  {X[j][0]}"
+        mt = mo.split(" ")
+        if mt[0] != "ok":
+            ck.cov["unsupported_dropped"] += 1
+            continue
+        r = pres[idx]
+        if not isinstance(r, dict):
+            failing.append((case, {"pair": case, "impl_observation": str(r),
+                                   "expected_by_property": "every pair evaluates without error"}, []))
+            continue
+        try:
+            i_obs = [b01(r["e"] == "true"), b01(r["n"] == "true"), b01(r["g"] != "null"), b01(r["h"] == "true"),
+                     b01(r["r"] == "0"), r["m"], None, "none" if r["x"] == "null" else str(int(r["x"]) - 1)]
+        except (KeyError, ValueError):
+            failing.append((case, {"pair": case, "impl_observation": r}, []))
+            continue
+        impl_eq[i][j] = i_obs[0] == "1"
+        obs[(i, j)] = (i_obs, mt[1:9], mt[9])
+    todo = list(obs)
+    uneq = [p for p in todo if not impl_eq[p[0]][p[1]]]
+    eqs = [p for p in todo if impl_eq[p[0]][p[1]]]
+    lres = run_batched(pool, head, [f"d: length(($v{i}: 1, $v{j}: 2))" for i, j in uneq])
+    for idx, p in enumerate(uneq):
+        r = lres[idx]
+        obs[p][0][6] = "0" if isinstance(r, dict) and r.get("d") == "2" else ("1" if not isinstance(r, dict) and "Duplicate key" in str(r[2]) else "?")
+    ejobs = [compile_job(head + f"x{{d: length(($v{i}: 1, $v{j}: 2))}}", syntax="scss") for i, j in eqs]
+    for p, ans in zip(eqs, pool.map(ejobs, timeout=30)):
+        msg = (ans.get("err") or {}).get("message") or ""
+        obs[p][0][6] = "1" if ans.get("status") == "err" and "Duplicate key" in msg else ("0" if ans.get("status") == "ok" else "?")
+    law_lines, law_ix = [], []
+    for p in todo:
+        i_obs, m_obs, m_agrees = obs[p]
+        i, j = p
+        case = f"{X[i][0]}  vs  {X[j][0]}"
+        ki, kj = xkind(X[i][1]), xkind(X[j][1])
+        ck.count(("xpair", X[i][0], X[j][0]), ki == kj or i_obs[0] == "1" or m_obs[0] == "1")
+        ck.hist(f"xpair:{ki}-{kj}")
+        ck.hist("xpair:eq" if i_obs[0] == "1" else "xpair:ne")
+        if (i * n + j) % 997 == 0:
+            ck.sample({"xpair": case, "impl": i_obs, "model": m_obs})
+        if [str(x) for x in i_obs] != m_obs:
+            disagree("xpair", case, m_obs, i_obs)
+        if m_agrees != "-":
+            disagree("xpair-model-P", case, m_agrees, "-")
+        if "?" in i_obs:
+            failing.append((case, {"pair": case, "impl_observation": i_obs,
+                                   "expected_by_property": "a map literal is either accepted or rejected as Duplicate key"}, []))
+            continue
+        law_lines.append("value pairlaw " + " ".join(str(x) for x in i_obs))
+        law_ix.append(p)
+    for p, verdict in zip(law_ix, driver(law_lines)):
+        if verdict == "ok holds":
+            continue
+        i, j = p
+        case = f"{X[i][0]}  vs  {X[j][0]}"
+        clauses = verdict.replace("ok fails ", "").split(",")
+        ck.hist("xpairlaw-fails:" + "+".join(clauses))
+        failing.append((case, {"pair": case, "failed_clauses": clauses, "impl_observation": obs[p][0],
+                               "model_observation": obs[p][1], "expected_by_property":
+                               "!= negates ==; map-get/has-key/remove/merge/literal and index find an entry exactly when the key/element == the probe"}, []))
+    # the equivalence laws on grass's own == matrix over the extended universe (all triples)
+    mat = ".".join("".join(b01(x) for x in row) for row in impl_eq)
+    dom = "".join(b01(not xhas_nan(X[i][1])) for i in range(n))
+    l1, l2 = driver([f"value laws {n} {mat} {dom}", f"value lawsall {n} {mat}"])
+    ck.count(("xlaws", n), True)
+    ck.cov["evaluations"] += n ** 3
+    ck.hist("xtriples-through-matrix", n ** 3)
+    m = re.match(r"ok refl:(\S+) symm:(\S+) trans:(\S+)$", l1)
+    ma = re.match(r"ok symm (\d+) \[(.*?)\] trans (\d+) \[(.*?)\]$", l2)
+    if not m or not ma:
+        failing.append(("law checker (extended universe)", {"driver_answer": (l1 + " | " + l2)[:300]}, []))
+    else:
+        if m.group(1) != "ok":
+            i = int(m.group(1))
+            failing.append((f"{X[i][0]} == {X[i][0]}", {"law": "reflexive", "value": X[i][0]}, []))
+        ck.hist("xsymm-violations", int(ma.group(1)))
+        ck.hist("xtrans-violations", int(ma.group(3)))
+        for t in filter(None, ma.group(2).split(";")):
+            i, j = map(int, t.split(","))
+            failing.append((f"{X[i][0]} == {X[j][0]} vs reverse", {"law": "symmetric", "a": X[i][0], "b": X[j][0],
+                            "a==b": impl_eq[i][j], "b==a": impl_eq[j][i]}, []))
+        for t in filter(None, ma.group(4).split(";")):
+            i, j, k = map(int, t.split(","))
+            failing.append((f"{X[i][0]} == {X[j][0]} == {X[k][0]}",
+                            {"law": "transitive", "a": X[i][0], "b": X[j][0], "c": X[k][0],
+                             "expected_by_property": "a==b and b==c imply a==c"}, []))
+    # index() over the whole extended universe
+    ulist = "(" + ", ".join(f"$v{i}" for i in range(n)) + ")"
+    ires = run_batched(pool, head + f"$U: {ulist};\n", [f"x: inspect(index($U, $v{j}))" for j in range(n)])
+    ilines = [f"value xindex now {n} " + " ".join(xenc(t) for _, t in X) + " " + xenc(X[j][1]) for j in range(n)]
+    ilines += ["value first " + "".join(b01(impl_eq[i][j]) for i in range(n)) for j in range(n)]
+    iouts = driver(ilines)
+    for j in range(n):
+        r = ires[j]
+        got = "?" if not isinstance(r, dict) else ("none" if r.get("x") == "null" else str(int(r["x"]) - 1))
+        model, direct = iouts[j].replace("ok ", ""), iouts[n + j].replace("ok ", "")
+        ck.count(("xindex", X[j][0]), True)
+        if got != model:
+            disagree("xindex", f"index(extended universe, {X[j][0]})", model, got)
+        if got != direct:
+            failing.append((f"index(extended universe, {X[j][0]})", {"impl_observation": got, "first_equal_by_grass_==": direct,
+                            "expected_by_property": "index() returns the first position whose element == the probe"}, []))
+    ck.cov["extended_universe"] = n
+
+
+def hash_probe(ck):
+    """`Value` has no `Hash`: every keyed operation goes through `PartialEq` (SassMap is a Vec).  If an
+    implementation of `Hash` appears for a value type, hash/== consistency becomes part of the property
+    and is not modelled: reported as unproved."""
+    import os
+    from vlib import REPO
+    root = os.path.join(REPO, "crates/compiler/src")
+    types = {"Value", "SassNumber", "SassMap", "Number", "ArgList", "SassCalculation", "CalculationArg", "SassFunction",
+             "Color", "Rgb"}
+    found = []
+    for sub in ("value", "color"):
+        d = os.path.join(root, sub)
+        for fn in sorted(os.listdir(d)) if os.path.isdir(d) else []:
+            if not fn.endswith(".rs"):
+                continue
+            text = open(os.path.join(d, fn)).read()
+            for mm in re.finditer(r"impl\s+(?:std::hash::|hash::|core::hash::)?Hash\s+for\s+(\w+)", text):
+                if mm.group(1) in types:
+                    found.append(f"{sub}/{fn}: impl Hash for {mm.group(1)}")
+            for mm in re.finditer(r"#\[derive\(([^)]*)\)\]\s*(?:pub(?:\([a-z]+\))?\s+)?(?:enum|struct)\s+(\w+)", text):
+                if mm.group(2) in types and re.search(r"\bHash\b", mm.group(1)):
+                    found.append(f"{sub}/{fn}: derive(Hash) on {mm.group(2)}")
+    ck.cov["value_hash_impls"] = len(found)
+    ck.hist("hash-probe:" + ("none" if not found else "FOUND"))
+    if found:
+        ck.unproved("model-incomplete", {"why": "a SassScript value type implements Hash; hash/== consistency is not modelled",
+                                         "where": found})
+
+
+# --------------------------------------------------------------------------------------------
 
 # Inputs of the findings K1, K2, K4 (C09) and D6, D20 — all repaired in /repo — with the answers the
 # property demands.  Regression cases: run first on every run; a wrong answer is a plain violation.
@@ -757,6 +1127,10 @@ def run(tier, seed):
                             "expected_by_property": "index() returns the first position whose element == the probe"}, []))
 
     log(f"[C09] index done {__import__('time').time()-ck.t0:.0f}s")
+    # ---- (4x) the extended universe (compound units, calculations, function references) ---------
+    ext_section(ck, pool, failing, disagree)
+    hash_probe(ck)
+    log(f"[C09] extended universe done {__import__('time').time()-ck.t0:.0f}s")
     # ---- (5) random sequences of map operations through inspect() --------------------------------
     keys, vals, ptext = op_pool()
     kk = [k for k in keys]
@@ -789,6 +1163,7 @@ def run(tier, seed):
         sl.append(line)
     sres = run_batched(pool, PRELUDE, sb, size=100)
     souts = driver(sl)
+    houts = driver([l.replace("value ops now ", "value keyshist now ", 1) for l in sl])
     # DIRECT: every single operation keeps the order of the keys it leaves (Lean predicate `orderKept`
     # on grass's own key sequences before / after the operation)
     order_lines, order_ix = [], []
@@ -845,6 +1220,19 @@ def run(tier, seed):
                                       "has-key": r.get("h"), "index(map-keys)": r.get("hk"), "probe": probe[0]}, []))
         if got != want:
             disagree("map-ops", sb[idx], want, got)
+        # the key order computed from the key history alone (Lean `keysHist`, theorem C09_map_order_history)
+        # against all four observers of grass: @each, map-keys, inspect (keys of the rendered map), length
+        ho = houts[idx]
+        if not ho.startswith("ok "):
+            ck.cov["unsupported_dropped"] += 1
+        else:
+            hkeys = dec_tokens(ho.split(" ")[1:])[0][1]
+            hist_e = "K" + "".join(render(k, ptext) + "|" for k in hkeys)
+            hist_k = render(("list", hkeys, "comma", False), ptext)
+            ck.hist(f"keyshist:len={len(hkeys)}")
+            if (hist_e, hist_k, str(len(hkeys))) != (r.get("e"), r.get("k"), r.get("n")):
+                disagree("keys-history", sb[idx], {"each": hist_e, "keys": hist_k, "n": len(hkeys)},
+                         {"each": r.get("e"), "keys": r.get("k"), "n": r.get("n")})
         # DIRECT: @each, map-keys, length agree on the number of entries; the probe is found only if has-key
         if (r.get("g") != "null") and r.get("h") != "true":
             failing.append((sb[idx], {"sequence": sb[idx], "impl_observation": r,
